@@ -45,6 +45,18 @@ Theorem C09_search_returns_least_feasible_k : forall (feasible : nat -> bool) (l
 Proof. exact search_min. Qed.
 Print Assumptions C09_search_returns_least_feasible_k.
 
+(* audit (audit/props_C04_C06_C09_C16.md): all four hypotheses of C09_search_returns_least_feasible_k on a concrete status list
+   (feasible k := 2 <= k, statuses from lb = 1: Infeasible, Optimal, Optimal, Optimal), and the search computes Solved 2 *)
+From FP Require AuditExamples17.
+Example C09_search_hypotheses_satisfiable :
+  let feasible := fun k => (2 <=? k)%nat in
+  let sts := map (fun k => mkraw (if feasible k then Optimal else Infeasible) false) (seq 1 4) in
+  (forall i, (i < 5 - 1)%nat -> exists x, nth_error sts i = Some x /\ status_of x = if feasible (1 + i)%nat then Optimal else Infeasible) /\
+  feasible 2%nat = true /\ (forall k, (k < 2)%nat -> feasible k = false) /\ (1 <= 2 < 5)%nat /\
+  so_res (mpc_solve true 1 5 sts) = Solved 2.
+Proof. exact AuditExamples17.mpc_search_hypotheses. Qed.
+Print Assumptions C09_search_hypotheses_satisfiable.
+
 (* the checker that decides coverage on every answer of the implementation *)
 From FP Require Import Checkers CheckersProofs.
 Theorem C09_cover_checker_correct : forall E ignore routes,
